@@ -21,7 +21,7 @@ use std::time::{Duration, Instant};
 pub const DEF: PropDef = PropDef {
     id: "C08",
     level: "fault_enumeration",
-    rule: "case = (lineage formula built through the real LineageStore, seed probabilities from {0,0.2,0.5,0.9,1}, seed kinds, HybridConfig, clock-fault index): formulas = all monotone DNFs (with shared seeds and subsumed clauses), And(Or,Or) nestings (two depths), every single-Not variant of those, the same with seeds {0,1} in an exclusive group, with one seed id absent from the snapshot, and constant/complement specials, over <=4 seeds (thorough: <=6, and a window-DNF family over 12 seeds); configs = every valid combination of k_initial{1,2} x k_max{k_initial,4} x k_growth 2 x threshold{0,.3,.5,.9,1} x band{0,.2} x gain floor{0,.05} x node budget{2,8,1000} (+7 invalid configs); for each (formula,probabilities,config) the fault-free run of evaluate_hybrid_with_clock is executed with a counting clock, then one run per clock reading n in [0,readings) and per fault mode (single jump past all deadlines at reading n / runaway clock from reading n); compile_lineage_to_sdd_with_clock likewise per reading and per node budget 2..=needed+1; evaluate_topk for k in {0,1,2,3,4,8} x node budgets; Reasoner::infer_new_facts_with_hybrid on 21 acyclic positive programs against possible-worlds enumeration over a naive fixpoint. Oracle: exact truth-table probability p* (exclusive group = exactly one member true, member i with probability p_i, group mass 1; a missing seed = every completion p in [0,1] must be respected): Exact => |p-p*|<=1e-9; every reported lower/upper bound brackets p* (1e-9); Alert => p* >= threshold, NoAlert => p* < threshold (no slack when all probabilities are in {0,.5,1}, i.e. arithmetic is exact; 1e-9 otherwise); NeedsExact/Indeterminate always acceptable. non-trivial = (formula, probabilities, seed kinds) with 0 < p* < 1 and >= 2 distinct seeds in the formula; distinct = distinct such triples; outcomes = distinct (entry point, status, decision, reason, fault reached, fault changed the result)",
+    rule: "case = (lineage formula built through the real LineageStore, seed probabilities from {0,0.2,0.5,0.9,1}, seed kinds, HybridConfig, clock-fault index): formulas = all monotone DNFs (with shared seeds and subsumed clauses), And(Or,Or) nestings (two depths), every single-Not variant of those, the same with seeds {0,1} in an exclusive group, with one seed id absent from the snapshot, and constant/complement specials, over <=4 seeds (quick: all 127 DNFs over 3 seeds, the 575 DNFs with <=3 clauses over 4; thorough: all 32767 DNFs over 4 seeds, 2-clause DNFs and And(Or,Or) over 5 and 6 seeds, window-DNF families over 6, 8 and 12 seeds); probability vectors: 5 fixed spreads per formula (two dyadic, one uniformly 0.2) and, for the DNFs over 3 seeds, all 125 assignments; configs = every valid combination of k_initial{1,2} x k_max{k_initial,4} x k_growth 2 x threshold{0,.3,.5,.9,1} x band{0,.2} x gain floor{0,.05} x node budget{2,8,1000} (+7 invalid configs) for the core families, fixed sub-grids of 30 / 12 of these configurations elsewhere (counters setups_* / evals_* say how much each family got); for each (formula,probabilities,config) the fault-free run of evaluate_hybrid_with_clock is executed with a counting clock, then one run per clock reading n in [0,readings) and per fault mode (single jump past all deadlines at reading n / runaway clock from reading n); compile_lineage_to_sdd_with_clock likewise per reading and per node budget 2..=needed+1; evaluate_topk for k in {0,1,2,3,4,8} x node budgets; Reasoner::infer_new_facts_with_hybrid on 21 acyclic positive programs against possible-worlds enumeration over a naive fixpoint. Oracle: exact truth-table probability p* (exclusive group = exactly one member true, member i with probability p_i, group mass 1; a missing seed = every completion p in [0,1] must be respected): Exact => |p-p*|<=1e-9; every reported lower/upper bound brackets p* (1e-9); Alert => p* >= threshold, NoAlert => p* < threshold (no slack when all probabilities are in {0,.5,1}, i.e. arithmetic is exact; 1e-9 otherwise); NeedsExact/Indeterminate always acceptable. non-trivial = (formula, probabilities, seed kinds) with 0 < p* < 1 and >= 2 distinct seeds in the formula; distinct = distinct such triples; outcomes = distinct (entry point, status, decision, reason, fault reached, fault changed the result)",
     assumptions: &[
         "reference: truth-table summation over all worlds (harness/src/reference/lineage_tt.rs), self-tested on hand-computed cases incl. the repository's own fixtures (0.64, 0.36, 0.2)",
         "exclusive groups are only generated with total mass 1 (an unreferenced filler member completes the group), where the exactly-one constraint of compile_lineage_to_sdd and the annotated-disjunction reading coincide",
@@ -29,6 +29,8 @@ pub const DEF: PropDef = PropDef {
         "strict (slack-free) threshold comparison only when every seed probability is in {0,0.5,1}: all sums/products are exact in f64, so a decision contradicting p* is a logic error, not rounding",
         "clock faults are monotone: single jump of +1h at reading n, or +1h at every reading from n on; time never goes backwards; budgets are 1 s so the fault-free counting clock (frozen time) never expires",
         "evaluate_topk and the end-to-end entry use the real clock with a 30 s budget; a real expiry there yields Err/NeedsExact, which the oracle accepts",
+        "end-to-end programs: positive, acyclic predicate graph, <= 6 uncertain facts, 5 probability vectors each (exclusive groups get fixed mass-1 splits (.5,.5) (1,0) (.2,.8) / (.2,.3,.5) (.5,.5,0) (0,0,1)); only the soundness of returned results is judged here, completeness of derivation belongs to C05/C06 (counter e2e_derivable_fact_without_result is informative)",
+        "invalid configurations are outside the property's quantifier; the same soundness oracle is applied to whatever they return (NaN threshold: no decision is justified) and the number answered NeedsExact is counted",
         "SDD checkpoint counts may vary between runs (HashMap iteration inside the SDD package); a replay therefore re-runs every fault index of the recorded (formula, probabilities, config)",
     ],
     run,
@@ -796,12 +798,14 @@ fn window_dnfs(n: usize) -> Vec<Fm> {
     out
 }
 
-/// the fixed probability vectors (first two are dyadic => strict threshold comparison)
-const PVECS: [[f64; 12]; 4] = [
+/// the fixed probability vectors (first two are dyadic => strict threshold comparison; the last one is
+/// uniformly low: many proofs of small mass, so the residual/probe part of the upper bound matters)
+const PVECS: [[f64; 12]; 5] = [
     [0.5; 12],
     [1.0, 0.5, 0.0, 0.5, 1.0, 0.5, 0.5, 0.0, 0.5, 1.0, 0.5, 0.5],
     [0.9, 0.2, 0.5, 1.0, 0.2, 0.9, 0.5, 0.2, 0.9, 0.0, 0.5, 0.2],
     [0.2, 0.9, 0.0, 0.5, 0.9, 0.2, 1.0, 0.5, 0.2, 0.9, 0.9, 0.5],
+    [0.2; 12],
 ];
 
 fn all_prob_vectors(n: usize) -> Vec<Vec<f64>> {
@@ -868,8 +872,8 @@ fn enumerate_jobs(thorough: bool) -> Vec<Job> {
 
     // --- monotone DNFs, independent seeds ---
     for f in &dnf3 {
-        for i in 0..4 {
-            let cfgs = if thorough || i == 2 { Cfgs::Full } else if i == 0 { Cfgs::Reduced } else { Cfgs::Tiny };
+        for i in 0..5 {
+            let cfgs = if (thorough && i != 4) || i == 2 { Cfgs::Full } else if i == 0 || i == 4 { Cfgs::Reduced } else { Cfgs::Tiny };
             push("dnf", f, 3, pv(i, 3), false, None, cfgs, cfgs != Cfgs::Tiny);
         }
     }
@@ -889,6 +893,7 @@ fn enumerate_jobs(thorough: bool) -> Vec<Job> {
             push("dnf4", &f, 4, pv(2, 4), false, None, if small { Cfgs::Full } else { Cfgs::Tiny }, small);
             if m.len() <= 4 || is_antichain(&m) {
                 push("dnf4", &f, 4, pv(0, 4), false, None, Cfgs::Tiny, false);
+                push("dnf4", &f, 4, pv(4, 4), false, None, Cfgs::Tiny, false);
             }
         }
     } else {
@@ -898,26 +903,31 @@ fn enumerate_jobs(thorough: bool) -> Vec<Job> {
             if m.len() <= 2 {
                 push("dnf4", &f, 4, pv(0, 4), false, None, Cfgs::Tiny, true);
             }
+            if m.len() == 3 && is_antichain(&m) {
+                push("dnf4", &f, 4, pv(4, 4), false, None, Cfgs::Tiny, false);
+            }
         }
     }
     // --- nested And(Or,Or) ---
     for f in nested_and_or(3) {
-        for i in 0..4 {
+        for i in 0..5 {
             if thorough || i == 0 || i == 2 {
                 push("nested", &f, 3, pv(i, 3), false, None, Cfgs::Full, true);
+            } else if i == 4 {
+                push("nested", &f, 3, pv(i, 3), false, None, Cfgs::Tiny, false);
             }
         }
     }
     for f in nested_and_or(4) {
-        for i in 0..4 {
-            if thorough || i == 0 || i == 2 {
-                push("nested", &f, 4, pv(i, 4), false, None, if thorough { Cfgs::Full } else { Cfgs::Tiny }, true);
+        for i in 0..5 {
+            if thorough || i == 0 || i == 2 || i == 4 {
+                push("nested", &f, 4, pv(i, 4), false, None, if thorough { Cfgs::Full } else { Cfgs::Tiny }, i != 4);
             }
         }
     }
     for f in nested_and_or_of_clauses().iter().chain(nested_depth3(3).iter()) {
-        for i in 0..4 {
-            if thorough || i == 2 {
+        for i in 0..5 {
+            if thorough || i == 2 || i == 4 {
                 push("nested_deep", f, 3, pv(i, 3), false, None, if thorough { Cfgs::Full } else { Cfgs::Tiny }, thorough);
             }
         }
@@ -1010,6 +1020,7 @@ fn enumerate_jobs(thorough: bool) -> Vec<Job> {
                     continue; // covered (up to renaming) by a smaller case
                 }
                 push("wide", f, n, pv(2, n), false, None, Cfgs::Tiny, true);
+                push("wide", f, n, pv(4, n), false, None, Cfgs::Tiny, false);
                 if n == 5 {
                     push("wide", f, n, pv(0, n), false, None, Cfgs::Tiny, false);
                     let mut p = vec![0.5, 0.2];
@@ -1020,13 +1031,13 @@ fn enumerate_jobs(thorough: bool) -> Vec<Job> {
         }
         for n in [6usize, 8] {
             for f in window_dnfs(n) {
-                for i in [0usize, 2] {
+                for i in [0usize, 2, 4] {
                     push("dnf_window", &f, n, pv(i, n), false, None, Cfgs::Full, true);
                 }
             }
         }
         for f in window_dnfs(12) {
-            for i in 0..4 {
+            for i in 0..5 {
                 push("dnf12", &f, 12, pv(i, 12), false, None, Cfgs::Full, true);
             }
         }
